@@ -155,9 +155,11 @@ def r3_space_shifts(ctx):
     L = Canon(f.node).lines(True, True)
     # the semantic content (scale invariance of the basis, hence gauge invariance of the space shifts) is decided by R2, which
     # interprets this function; here only the confirmed shape is recorded: another shape is `unknown`, not a violation
-    Q = "(torch.eye(?d) - 2 * (?u / torch.norm(?u)).view(-1, 1) * (?u / torch.norm(?u)))"
-    hh = unify(L, ["?e = torch.zeros_like($0)", "?e[$k0] = 1.0", "?u = $0 - -torch.sign($0[$k0]) * torch.norm($0) * ?e", f"return torch.cat(({Q}[:, :$k0], {Q}[:, $k0 + 1:]), dim=1)"])
-    in_order = hh is not None and all(hh[f"#{i}"] < hh[f"#{i + 1}"] for i in range(3))
+    U_ = "($0 - -torch.sign($0[$k0]) * torch.norm($0) * ?e)"
+    V_ = f"({U_} / torch.norm{U_})"
+    Q = f"(torch.eye(?d) - 2 * {V_}.view(-1, 1) * {V_})"
+    hh = unify(L, ["?e = torch.zeros_like($0)", "?e[$k0] = 1.0", f"return torch.cat(({Q}[:, :$k0], {Q}[:, $k0 + 1:]), dim=1)"])
+    in_order = hh is not None and all(hh[f"#{i}"] < hh[f"#{i + 1}"] for i in range(2))
     whats = ["e_j is the stripped basis vector", "reflection target alpha = -sign(d_j) |d|", "u = d - alpha e_j", "normalised reflection vector", "Q = I - 2 v v^T", "the column collinear to G*v is stripped"]
     for what in whats:
         ctx.anchor(in_order, "C10.R3", f, f.node, what, "Householder reflection e_j, alpha, u, v, Q, stripped column", construct=what)
